@@ -15,7 +15,7 @@ From Anthem Require Import Base.ISet Syntax.Fol Syntax.Asp Sem.Domain Sem.Sat Se
   Model.Completion Model.StrategyCls Model.ExternalFull
   Proofs.SemBase Proofs.DecomposeOk Proofs.StrongOk Proofs.ExternalOk Proofs.AssemblyOk Proofs.RenameOk
   Proofs.C19Ext Proofs.C02Ok Proofs.FagesBridge Proofs.PlaceholderOk Proofs.C02Full Proofs.TightnessOk Proofs.PrivateUnique
-  Proofs.CompletionOk Proofs.HeadPred Proofs.HeadPredPipeline Proofs.C02Priv Proofs.C02Behaviour.
+  Proofs.CompletionOk Proofs.HeadPred Proofs.HeadPredPipeline Proofs.C02Priv Proofs.C02Behaviour Proofs.C02Witness.
 Open Scope string_scope.
 Open Scope list_scope.
 
@@ -24,12 +24,27 @@ Open Scope list_scope.
                            gives that placeholder (a numeral, symbol, #inf or #sup)
    rpv FI m F              the same replacement in a formula
    restrict S M            the interpretation M cut down to the predicates (symbol/arity) of S
-   ext_voc t P             predicates of P, and the input predicates of the user guide
+   ext_voc t P             predicates of P, and the PUBLIC (input and output) predicates of the user guide
    ext_stable_full t FI M P  :=  stable (restrict (ext_voc t P) M)
                                         (ph_program FI (task_placeholders t) P)
                                         (input_facts (restrict (ext_voc t P) M) (task_inputs t))
-        "on P's vocabulary M is a stable model of P plus M's input facts, placeholders read by FI"
-   reindex m M             M read through the renaming of private predicates (p |-> p_p)          *)
+        "on P's and the public vocabulary M is a stable model of P plus M's input facts, placeholders
+         read by FI" - in particular an output predicate that does not occur in P is empty in M
+   outputs_occur_in t P    every output predicate declared in the user guide occurs in P
+   outputs_occur t         ... in the specification program and in the program (decidable: outputs_occurb)
+   reindex m M             M read through the renaming of private predicates (p |-> p_p)
+
+   WHAT IS PROVED, AND WHAT IS NOT (audit A1, A3, A4).  The task-level theorems below are for
+   program-vs-program tasks without proof outline, both programs tight, under three class
+   exclusions: (i) the task's own validated task has no symbol equal to a 0-ary predicate
+   (otherwise rename_conflicting_symbols acts and the symbol_order chain is false for the
+   constants: finding F8c, Properties/C12.v); (ii) outputs_occur t (otherwise the side that lacks
+   an output predicate has no completed definition for it and a forward-only / backward-only
+   verification succeeds although the programs differ: finding F17, C02_missing_output_refuted);
+   (iii) the private renaming enters as `reindex` (faithful under no_rename_clash; F9).
+   The direction proved without hypothesis on the interpretation is COUNTERMODEL SOUNDNESS
+   (C02_countermodel_sound: refutes => behavioural difference).  The converse over the public part
+   only is C02_countermodel_complete (see there for what it assumes). *)
 
 (* (b) replace_placeholders commutes with satisfaction when the symbol is read as the
    placeholder's value ... *)
@@ -61,6 +76,7 @@ Theorem C02_translate_meaning :
   forall (fuel : nat) (t : ext_task) (P : program) (G th : theory),
     is_tight P = true ->
     (forall r h, In r P -> head_pred (rhead r) = Some h -> ~ In h (task_inputs t)) ->
+    outputs_occur_in t P ->
     tau_star P = Some G ->
     theory_translate tau_star_total completion (simp_classic_total fuel) t (task_placeholders t) P = Some th ->
     forall (FI : fint) (M : pint), tvalid FI M th <-> ext_stable_full t FI M P.
@@ -95,6 +111,7 @@ Theorem C02_modulo_private_uniqueness :
     is_tight L = true -> is_tight (et_program t) = true ->
     task_left tau_star_total completion (simp_classic_total fuel) t L = Some lft ->
     task_right tau_star_total completion (simp_classic_total fuel) t = Some rgt ->
+    outputs_occur t ->
     (forall vt, task_validated tau_star_total completion (simp_classic_total fuel) t = Some vt -> validated_no_clash vt) ->
     forall (FI : fint) (M : pint),
       tvalid FI M (map (fun a => rp_formula (task_placeholders t) (an_formula a)) (filter is_assumption (ug_formulas (et_user_guide t)))) ->
@@ -223,6 +240,7 @@ Theorem C02_external_stable_public_part :
   forall (fuel : nat) (t : ext_task) (P : program) (G th : theory) (FI : fint) (M : pint),
     is_tight P = true ->
     (forall r h, In r P -> head_pred (rhead r) = Some h -> ~ In h (task_inputs t)) ->
+    outputs_occur_in t P ->
     TauStar.tau_star P = Some G ->
     theory_translate tau_star_total completion (simp_classic_total fuel) t (task_placeholders t) P = Some th ->
     has_private_recursion P (private_predicates (ug_public_predicates (et_user_guide t)) (program_preds P)) = false ->
@@ -241,6 +259,7 @@ Theorem C02_behaviour :
     is_tight L = true -> is_tight (et_program t) = true ->
     task_left tau_star_total completion (simp_classic_total fuel) t L = Some lft ->
     task_right tau_star_total completion (simp_classic_total fuel) t = Some rgt ->
+    outputs_occur t ->
     (forall vt, task_validated tau_star_total completion (simp_classic_total fuel) t = Some vt -> validated_no_clash vt) ->
     forall (FI : fint) (M : pint),
       tvalid FI M (map (fun a => rp_formula (task_placeholders t) (an_formula a)) (filter is_assumption (ug_formulas (et_user_guide t)))) ->
@@ -265,6 +284,7 @@ Theorem C02_countermodel_sound :
     is_tight L = true -> is_tight (et_program t) = true ->
     task_left tau_star_total completion (simp_classic_total fuel) t L = Some lft ->
     task_right tau_star_total completion (simp_classic_total fuel) t = Some rgt ->
+    outputs_occur t ->
     (forall vt, task_validated tau_star_total completion (simp_classic_total fuel) t = Some vt -> validated_no_clash vt) ->
     forall (FI : fint) (M : pint),
       refutes_some FI M pbs ->
@@ -276,6 +296,124 @@ Theorem C02_countermodel_sound :
        ~ exists N, pub_agree t N M /\ ext_stable_full t FI N L).
 Proof. exact C02_countermodel_proof. Qed.
 Print Assumptions C02_countermodel_sound.
+
+(* ---------------- the class excluded by [outputs_occur] (audit A4, finding F17) ---------------- *)
+(* an external stable model is empty on every public predicate that is neither an input nor the head
+   of a rule - in particular on an output predicate that does not occur in the program *)
+Theorem C02_missing_output_empty :
+  forall (t : ext_task) (FI : fint) (N : pint) (P : program) (q : pred),
+    ext_stable_full t FI N P ->
+    (forall r, In r P -> head_pred (rhead r) <> Some q) -> ~ In q (task_inputs t) ->
+    In q (ext_voc t P) ->
+    forall d, List.length d = parity q -> ~ N (psym q) d.
+Proof. exact ext_stable_nonhead_empty. Qed.
+Print Assumptions C02_missing_output_empty.
+
+Theorem C02_outputs_occur_decidable : forall t, outputs_occurb t = true <-> outputs_occur t.
+Proof. exact outputs_occurb_spec. Qed.
+Print Assumptions C02_outputs_occur_decidable.
+
+(* Outside the class the statement of C02_behaviour is FALSE for the model (and for anthem: same
+   problems on the CLI).  t17 =  specification  out :- in.  out2 :- in.   program  out :- in.
+   input: in/0.  output: out/0.  output: out2/0.   --direction forward.
+   All other premises of C02_behaviour hold, M17 = {in, out, out2} is an external stable model of
+   the specification program and NO interpretation with its public part is one of the program
+   (the program never produces out2) - a forward behavioural difference - and yet no
+   interpretation whatsoever refutes the (single) emitted problem: anthem reports the forward
+   claim as proved.  The program side has no completed definition for out2 because completion.rs
+   completes only predicates that occur in the theory. *)
+Theorem C02_missing_output_refuted : forall FI : fint,
+  et_specification t17 = inl L17 /\ et_proof_outline t17 = [] /\
+  (external_decompose_full full_fuel t17 = XOk [] pbs17 /\ List.length pbs17 = 1) /\
+  (is_tight L17 = true /\ is_tight (et_program t17) = true) /\
+  task_left tau_star_total completion (simp_classic_total full_fuel) t17 L17 = Some lft17 /\
+  task_right tau_star_total completion (simp_classic_total full_fuel) t17 = Some rgt17 /\
+  (forall vt, task_validated tau_star_total completion (simp_classic_total full_fuel) t17 = Some vt -> validated_no_clash vt) /\
+  ~ outputs_occur t17 /\
+  dir_forward (et_direction t17) = true /\
+  ext_stable_full t17 FI M17 L17 /\
+  (~ exists N, pub_agree t17 N (reindex (task_mapping t17) M17) /\ ext_stable_full t17 FI N (et_program t17)) /\
+  (forall (FI' : fint) (M' : pint), ~ refutes_some FI' M' pbs17).
+Proof.
+  intros FI.
+  split; [reflexivity|]. split; [reflexivity|]. split; [exact t17_accepted|]. split; [exact t17_tight|].
+  split; [exact t17_left|]. split; [exact t17_right|]. split; [exact t17_no_clash|].
+  split; [exact t17_outputs_missing|]. split; [reflexivity|]. split; [exact (t17_left_stable FI)|].
+  split; [exact (t17_right_cannot FI)|exact t17_irrefutable].
+Qed.
+Print Assumptions C02_missing_output_refuted.
+
+(* ---------------- non-vacuity of the headline theorems (audit A1) ----------------
+   Every premise of C02_modulo_private_uniqueness / C02_behaviour / C02_countermodel_sound is
+   discharged on one accepted task, computed in the model (Proofs/C02Witness.v):
+   t6 =  specification  q :- in.  out :- q.     program  out :- not in.
+   input: in/0.  output: out/0.  (q/0 private to the specification; universal direction; simplify on)
+   M6 = {in, q, out}.  The left-hand side holds (M6 refutes forward_problem_0) and the right-hand
+   side is obtained THROUGH the theorem. *)
+Example C02_modulo_private_uniqueness_nonvacuous : forall FI : fint,
+  et_specification t6 = inl L6 /\ et_proof_outline t6 = [] /\
+  external_decompose_full full_fuel t6 = XOk [] pbs6 /\
+  (is_tight L6 = true /\ is_tight (et_program t6) = true) /\
+  task_left tau_star_total completion (simp_classic_total full_fuel) t6 L6 = Some lft6 /\
+  task_right tau_star_total completion (simp_classic_total full_fuel) t6 = Some rgt6 /\
+  outputs_occur t6 /\
+  (forall vt, task_validated tau_star_total completion (simp_classic_total full_fuel) t6 = Some vt -> validated_no_clash vt) /\
+  tvalid FI M6 (map (fun a => rp_formula (task_placeholders t6) (an_formula a)) (filter is_assumption (ug_formulas (et_user_guide t6)))) /\
+  tvalid FI M6 (assumptions_of lft6) /\ tvalid FI M6 (assumptions_of rgt6) /\
+  refutes_some FI M6 pbs6 /\
+  ((dir_forward (et_direction t6) = true /\
+    ext_stable_full t6 FI M6 L6 /\ ~ ext_stable_full t6 FI (reindex (task_mapping t6) M6) (et_program t6)) \/
+   (dir_backward (et_direction t6) = true /\
+    ext_stable_full t6 FI (reindex (task_mapping t6) M6) (et_program t6) /\ ~ ext_stable_full t6 FI M6 L6)).
+Proof.
+  intros FI.
+  split; [reflexivity|]. split; [reflexivity|]. split; [exact t6_accepted|]. split; [exact t6_tight|].
+  split; [exact t6_left|]. split; [exact t6_right|]. split; [exact t6_outputs_occur|]. split; [exact t6_no_clash|].
+  split; [exact (t6_ug FI M6)|]. split; [exact (t6_assumptions_left FI)|]. split; [exact (t6_assumptions_right FI M6)|].
+  split; [exact (t6_refuted FI)|exact (t6_full_rhs FI)].
+Qed.
+
+Example C02_behaviour_nonvacuous : forall FI : fint,
+  et_specification t6 = inl L6 /\ et_proof_outline t6 = [] /\
+  external_decompose_full full_fuel t6 = XOk [] pbs6 /\
+  (is_tight L6 = true /\ is_tight (et_program t6) = true) /\
+  task_left tau_star_total completion (simp_classic_total full_fuel) t6 L6 = Some lft6 /\
+  task_right tau_star_total completion (simp_classic_total full_fuel) t6 = Some rgt6 /\
+  outputs_occur t6 /\
+  (forall vt, task_validated tau_star_total completion (simp_classic_total full_fuel) t6 = Some vt -> validated_no_clash vt) /\
+  tvalid FI M6 (map (fun a => rp_formula (task_placeholders t6) (an_formula a)) (filter is_assumption (ug_formulas (et_user_guide t6)))) /\
+  tvalid FI M6 (assumptions_of lft6) /\ tvalid FI M6 (assumptions_of rgt6) /\
+  refutes_some FI M6 pbs6 /\
+  ((dir_forward (et_direction t6) = true /\
+    ext_stable_full t6 FI M6 L6 /\
+    ~ exists N, pub_agree t6 N (reindex (task_mapping t6) M6) /\ ext_stable_full t6 FI N (et_program t6)) \/
+   (dir_backward (et_direction t6) = true /\
+    ext_stable_full t6 FI (reindex (task_mapping t6) M6) (et_program t6) /\
+    ~ exists N, pub_agree t6 N M6 /\ ext_stable_full t6 FI N L6)).
+Proof.
+  intros FI.
+  split; [reflexivity|]. split; [reflexivity|]. split; [exact t6_accepted|]. split; [exact t6_tight|].
+  split; [exact t6_left|]. split; [exact t6_right|]. split; [exact t6_outputs_occur|]. split; [exact t6_no_clash|].
+  split; [exact (t6_ug FI M6)|]. split; [exact (t6_assumptions_left FI)|]. split; [exact (t6_assumptions_right FI M6)|].
+  split; [exact (t6_refuted FI)|exact (t6_behaviour_rhs FI)].
+Qed.
+
+(* C02_countermodel_sound has no hypothesis on the interpretation: premises and a refuting M6 *)
+Example C02_countermodel_sound_nonvacuous : forall FI : fint,
+  et_specification t6 = inl L6 /\ et_proof_outline t6 = [] /\
+  external_decompose_full full_fuel t6 = XOk [] pbs6 /\
+  (is_tight L6 = true /\ is_tight (et_program t6) = true) /\
+  task_left tau_star_total completion (simp_classic_total full_fuel) t6 L6 = Some lft6 /\
+  task_right tau_star_total completion (simp_classic_total full_fuel) t6 = Some rgt6 /\
+  outputs_occur t6 /\
+  (forall vt, task_validated tau_star_total completion (simp_classic_total full_fuel) t6 = Some vt -> validated_no_clash vt) /\
+  refutes_some FI M6 pbs6.
+Proof.
+  intros FI.
+  split; [reflexivity|]. split; [reflexivity|]. split; [exact t6_accepted|]. split; [exact t6_tight|].
+  split; [exact t6_left|]. split; [exact t6_right|]. split; [exact t6_outputs_occur|]. split; [exact t6_no_clash|].
+  exact (t6_refuted FI).
+Qed.
 
 (* ---------------- non-vacuity: an accepted task, computed entirely in the model ---------------- *)
 Definition av (x : string) : term := TVar x.
@@ -299,6 +437,15 @@ Proof.
   eexists _, _, _. split; [vm_compute; reflexivity|]. split; [reflexivity|].
   split; [vm_compute; reflexivity|]. split; [vm_compute; reflexivity|].
   split; [reflexivity|]. split; [reflexivity|]. split; vm_compute; reflexivity.
+Qed.
+
+(* the clash premise and outputs_occur hold for t5 as well (the premise the audit showed to be
+   unsatisfiable in its earlier `forall uga` form) *)
+Example C02_t5_premises :
+  (forall vt, task_validated tau_star_total completion (simp_classic_total full_fuel) t5 = Some vt -> validated_no_clash vt) /\
+  outputs_occur t5.
+Proof.
+  split; [apply NoClashDec.task_no_clashb_spec; vm_compute; reflexivity|apply outputs_occurb_spec; vm_compute; reflexivity].
 Qed.
 
 (* the overflow panic of tau* (F11) is an outcome of the full model, not an accepted task *)
